@@ -56,7 +56,11 @@ reg('C03', 'exploration',
     'Random build graphs are rendered to build.bfg; after a clean default build, a no-op build, a '
     'build of everything, one touch per input/intermediate file and clean+build of aliases/tests, '
     'the set of steps that really executed must equal the model upstream/downstream closure '
-    '(missing = lost dependency, extra = spurious dependency, twice = two producers).',
+    '(missing = lost dependency, extra = spurious dependency, twice = two producers). Injected '
+    'step failures (the stub tool dies before writing) must be retried by the next build with '
+    'everything downstream. Graphs include object_files()/copy_files() lists, library() nodes '
+    'under three library modes and targets declared by a submodule script; a file object inside '
+    'a command word must be a dependency (recorded finding).',
     'Trusted: vf/gen/dag.py Model; stubs; refninja for the Ninja half. Ninja legitimately '
     're-runs a deps=gcc edge whose output was touched (excluded, counted); symlink/hardlink '
     'copies share their source mtime (their re-run is optional, never required).',
@@ -127,7 +131,9 @@ reg('C08', 'exploration',
     'patterns, submodule removal ...) the back end is run, the primary build files must equal a '
     'fresh configure of the same tree (replaying the recorded configure command and environment), '
     'and a second run must neither invoke bfg9000 nor build anything. A back end that refuses to '
-    'run is regen-blocked, silent staleness regen-missed, wrong content regen-differs.',
+    'run is regen-blocked, silent staleness regen-missed, wrong content regen-differs. Histories '
+    'are dealt from a deck of all edit kinds (every kind in every run) with directed (edit the '
+    'lazy regeneration skips, structural edit) pairs.',
     'Trusted: the harness replay of the configure command as "same saved configuration" (C09 '
     'covers the saved file itself); refninja for Ninja; timestamp discipline.',
     'DESIGN.md §2 C08')
@@ -166,7 +172,10 @@ reg('C10', 'fault_enumeration',
     'replayed from a restored tree copy with the bfg9000 process killed at k, and every hook '
     'entry with ENOSPC / RuntimeError / KeyboardInterrupt raised; the follow-up must either exit '
     'non-zero or leave the build file and declared regeneration outputs byte-equal to the '
-    'uninterrupted run. A raising script must leave the build file untouched.',
+    'uninterrupted run. A raising script must leave the build file untouched. Scenarios: '
+    'back-end triggered regenerations, a fresh configure, a second configure with other options, '
+    'a plain regenerate; every other chunk with TMPDIR on another file system; every other '
+    'follow-up starts with a hand-typed `bfg9000 regenerate --lazy`.',
     'Trusted: kill modelled at Python-level boundaries (kernel-level torn writes only as '
     'truncation variants); tree copies preserve ns mtimes; refninja for the Ninja half.',
     'DESIGN.md §2 C10')
